@@ -167,6 +167,7 @@ func helpOpenOrCreateManifestFile(dir string, readOnly bool, extMagic uint16,
 			_ = fp.Close()
 			return nil, Manifest{}, err
 		}
+		vevent(5, path, truncOffset, 0) // verif: truncate
 	}
 	if _, err = fp.Seek(0, io.SeekEnd); err != nil {
 		_ = fp.Close()
@@ -224,8 +225,10 @@ func (mf *manifestFile) addChanges(changesParam []*pb.ManifestChange, opt Option
 		if _, err := mf.fp.Write(buf); err != nil {
 			return err
 		}
+		vevent(2, ManifestFilename, -1, int64(len(buf))) // verif: write
 	}
 
+	defer vevent(4, ManifestFilename, 0, 0) // verif: sync
 	return syncFunc(mf.fp)
 }
 
@@ -245,6 +248,7 @@ func helpRewrite(dir string, m *Manifest, extMagic uint16) (*os.File, int, error
 	if err != nil {
 		return nil, 0, err
 	}
+	vevent(1, rewritePath, 0, 0) // verif: create
 
 	// magic bytes are structured as
 	// +---------------------+-------------------------+-----------------------+
@@ -275,19 +279,23 @@ func helpRewrite(dir string, m *Manifest, extMagic uint16) (*os.File, int, error
 		fp.Close()
 		return nil, 0, err
 	}
+	vevent(2, rewritePath, 0, int64(len(buf))) // verif: write
 	if err := fp.Sync(); err != nil {
 		fp.Close()
 		return nil, 0, err
 	}
+	vevent(4, rewritePath, 0, 0) // verif: sync
 
 	// In Windows the files should be closed before doing a Rename.
 	if err = fp.Close(); err != nil {
 		return nil, 0, err
 	}
 	manifestPath := filepath.Join(dir, ManifestFilename)
+	vevent(8, rewritePath, 0, 0) // verif: rename-from
 	if err := os.Rename(rewritePath, manifestPath); err != nil {
 		return nil, 0, err
 	}
+	vevent(9, manifestPath, 0, 0) // verif: rename
 	fp, err = y.OpenExistingFile(manifestPath, 0)
 	if err != nil {
 		return nil, 0, err
@@ -300,6 +308,7 @@ func helpRewrite(dir string, m *Manifest, extMagic uint16) (*os.File, int, error
 		fp.Close()
 		return nil, 0, err
 	}
+	vevent(10, dir, 0, 0) // verif: syncdir
 
 	return fp, netCreations, nil
 }
